@@ -75,7 +75,7 @@ chk("C16", "E-prod over the configuration lattice", "exhaustive enumeration of t
     "Only x86_64-linux is present: 32-bit digit code and non-x86 fallbacks cannot be built here.",
     "DESIGN.md 4/C16")
 chk("C17", "E-prod", PROD,
-    "A recording Serializer checks the token stream of every value of +-Dense(S32,3) (sequence of base-2^32 digits, declared length = emitted length, no trailing zero, BigInt as (i8 sign, seq)); a token-replay Deserializer feeds every u32 sequence up to length 7 over {0,1,2^32-1} x 5 size hints x 7 sign tokens (incl. inconsistent and invalid ones); serde_json round trip as a second real format.",
+    "A recording Serializer checks the token stream of every value of +-Dense(S32,3) (sequence of base-2^32 digits, declared length = emitted length, no trailing zero, BigInt as (i8 sign, seq)); a token-replay Deserializer feeds every u32 sequence up to length 7 over {0,1,2^32-1} x 5 size hints x all 256 i8 sign tokens (incl. inconsistent and invalid ones); serde_json round trip as a second real format.",
     "Token sequences bounded in length; two formats (recorder, serde_json).",
     "DESIGN.md 4/C17")
 chk("C18", "E-hist over RNG streams", "exhaustive enumeration of RNG output streams (words from a 5-letter alphabet up to a length bound) fed to the real generators, result and words-consumed compared with the specification model",
